@@ -7,8 +7,9 @@ Line protocol (see lean/CsVerif/Driver/C04.lean)
                                       dH/dHH/dQ.x<name>.x<value> (structured statics) Bo Bi Bm Bx unk
   dict token     `d<khex>.<vhex>,…`
   request        `N` | `Q method uri params headers body`;   response `S headers body`
-  tr  c|s prog o m i <request> rand   -> `T ok <req> R ok <o m i> D ok <o m i>`   (lib.transform, lib.recover, reference decode)
-  re  c|s prog o m i <request> rand   -> `E <req> R ok <o m i>`                   (reference encode, lib.recover)
+  tr  c|s prog o m i <request> rand   -> `T ok <req> R ok <o m i> D ok <o m i> V T`  (lib.transform, lib.recover, reference decode,
+                                         V = case satisfies the theorems' hypotheses: Ref.valid and uri-append => empty initial URI)
+  re  c|s prog o m i <request> rand   -> `E <req> R ok <o m i> V T`               (reference encode, lib.recover)
   trf rev build flatprog o m i <request> rand -> `T … R …`                        (arbitrary flat programs)
   rec rev build flatprog <http>       -> `ok <o m i>` | `exc …`                  (recover on arbitrary messages)
   b64e/u64e/b64d/u64d x               -> CPython base64 vs model
@@ -514,6 +515,31 @@ def setup(form, progtok, salt):
     return t, True, [("block", "output", encs, ("print",))]
 
 
+def item_place(it):
+    if it[0] == "deco":
+        return ("parameter", it[2]) if it[1] == "parameter" else ("header", it[2])
+    return it[3]
+
+
+def enc_ok(e):
+    return not (isinstance(e, tuple) and isinstance(e[1], int) and e[1] < 0)
+
+
+def in_domain(items, q):
+    """Python statement of the theorems' hypotheses (lean: Ref.valid p && (usesUri p -> initial uri empty))"""
+    places = [item_place(it) for it in items]
+    for i, it in enumerate(items):
+        if it[0] == "deco":
+            if (b"=" if it[1] == "parameter" else b":") in it[2]:
+                return False
+        else:
+            if not all(enc_ok(e) for e in it[2]) or it[3] in places[i + 1:]:
+                return False
+    if ("uri",) in places and (q or EMPTY_REQ)["uri"] != b"":
+        return False
+    return True
+
+
 def http_of(server, r):
     if server:
         return HttpResponse(status=200, headers=r.headers, reason=b"OK", body=r.body)
@@ -548,10 +574,11 @@ def impl(stream, line):
             finally:
                 c2mod.random = saved
             ritems = [("block", f, [int_form(e) for e in es], tm) for (_, f, es, tm) in items] if server else items
-            return f"T ok {show_req(r)} R {_recover_str(t, http_of(server, r))} D {show_rc2(r_decode(ritems, msg_of(server, r)))}"
+            return (f"T ok {show_req(r)} R {_recover_str(t, http_of(server, r))} D {show_rc2(r_decode(ritems, msg_of(server, r)))}"
+                    f" V {C.tf(in_domain(ritems, q))}")
         e = r_encode(items, masks, c2, q or EMPTY_REQ)
         r = HttpRequest(method=e["method"], uri=e["uri"], params=e["params"], headers=e["headers"], body=e["body"])
-        return f"E {show_req(r)} R {_recover_str(t, http_of(server, r))}"
+        return f"E {show_req(r)} R {_recover_str(t, http_of(server, r))} V {C.tf(in_domain(items, q))}"
     if op == "trf":
         codes = parse_codes(w[3])
         build = {"none": None, "o": "output", "i": "id", "m": "metadata", "x": "other"}[w[2]]
@@ -614,14 +641,18 @@ def oracle(stream, line, out):
     if base == "tr":
         if not out.startswith("T ok ") or " R " not in out or " D " not in out:
             return False
-        r = out.split(" R ", 1)[1]
+        r, v = out.split(" R ", 1)[1].rsplit(" V ", 1)
         rec, dec = r.split(" D ", 1)
         exp = expected_c2(line)
+        if v != "T" and not stream.endswith("initial"):
+            return None  # outside the theorems' hypotheses (the generator never does this on purpose)
         return rec == exp and dec == exp
     if base == "re":
         if " R " not in out:
             return False
-        rec = out.split(" R ", 1)[1]
+        rec, v = out.split(" R ", 1)[1].rsplit(" V ", 1)
+        if v != "T" and not stream.endswith("initial"):
+            return None
         return rec == expected_c2(line)
     if stream == "b64":
         w = line.split(" ")
@@ -654,7 +685,7 @@ def nontrivial(stream, line, out):
     if base in ("tr", "re"):
         codes = w[2][1:].split(",")
         has_enc = any(c.split(".")[0] in ("A", "P", "b64", "b64u", "nb", "nbu", "mask") for c in codes)
-        return has_enc and any(t not in ("none", "x") for t in w[3:6])
+        return has_enc and any(t not in ("none", "x") for t in w[3:6]) and out.endswith(" V T")
     if stream == "trf":
         return len(w[3]) > 1 and any(t not in ("none", "x") for t in w[4:7])
     if stream == "rec":
@@ -811,6 +842,14 @@ def gen_program(rng, big, force_uri=False):
     order = list(range(len(items)))
     rng.shuffle(order)
     items = [items[k] for k in order]
+    # a decoration may share its key with a LATER block (the block overwrites it): still a valid program
+    if rng.random() < 0.15:
+        cand = [i for i, it in enumerate(items) if it[0] == "block" and it[3][0] in ("header", "parameter")
+                and (b":" if it[3][0] == "header" else b"=") not in it[3][1]]
+        if cand:
+            i = rng.choice(cand)
+            t = items[i][3]
+            items.insert(rng.randrange(0, i + 1), ("deco", t[0], t[1], rng.choice([b"", b"stale", b"a=b: c"])))
     return items, uses_uri
 
 
@@ -932,7 +971,7 @@ def gen(tier, rng, shard, nshards):
                 yield "re", f"re s s{','.join(enc_code(e) for e in chain)} {tail}"
 
     # ---- random valid structured programs
-    n_small = (400000 if thorough else 24000) // nshards
+    n_small = (400000 if thorough else 16000) // nshards
     n_big = (20000 if thorough else 1200) // nshards
     for big, n in ((False, n_small), (True, n_big)):
         for _ in range(n):
@@ -956,7 +995,7 @@ def gen(tier, rng, shard, nshards):
         yield "trf", f"trf {rev} {build} {gen_flat(rng)} {c2_tokens(c2)} {req_tokens(req)} {C.ints(gen_masks(rng, 3))}"
 
     # ---- recover on arbitrary messages
-    for _ in range((240000 if thorough else 20000) // nshards):
+    for _ in range((240000 if thorough else 14000) // nshards):
         rev = rng.choice("FFFT")
         build = rng.choice(["none", "none", "o", "i", "m", "x"])
         yield "rec", f"rec {rev} {build} {gen_flat(rng)} {gen_message(rng, [b'Cookie', b'k', b'', b'Host'])}"
